@@ -7,8 +7,8 @@ from .. import limiter_drv as L
 from .. import sched as S
 from ..tlaparse import to_json
 
-INVS = ['CountBound', 'Spacing', 'WindowRespected', 'StatsAgree', 'TypeOK']
-PROPS = ['NoSpuriousDenial', 'RejectedHitIsFree', 'ConditionGates']
+INVS = ['CountBound', 'Spacing', 'WindowRespected', 'StatsAgree', 'LastIsLatest', 'TypeOK']
+PROPS = ['NoSpuriousDenial', 'RejectedHitIsFree', 'ConditionGates', 'LastMovesForward']
 
 
 def mc_cfg(configs, atomic=True, threads=2, maxnow=4, hits=3, resets=False):
